@@ -56,3 +56,14 @@ CLAIMED["C14"] = dict(
         "is not decided). Structure cases are a sample of (alignment, length) pairs, not all.")
 PENDING.remove("C14") if "C14" in PENDING else None
 NOT_APPLICABLE.pop("C14", None)
+CLAIMED["C13"] = dict(
+   text="Real index.c against a list-of-records model (128-bit arithmetic): each single operation (append, "
+        "stream_padding, stream_flags, cat) from a fresh index with ALL sizes symbolic over the 63-bit VLI range "
+        "- accessors, full Block/Stream iteration, locate(t), and 'fails exactly when a format limit is exceeded' "
+        "- plus focused multi-operation obligations (dup of a two-Stream index; append after cat with symbolic "
+        "locate target).",
+   note="Longer symbolic histories are OUTSIDE the claim: measured two appends = 80 M clauses, three operations "
+        "> 15 GB (every limit check is a symbolic branch whose join makes the AVL tree pointers symbolic). "
+        "Allocator = typed object pools (no exact-size heap checking here). Not covered yet: index "
+        "encoder/decoder round trip, file-info decoder seek behaviour, xz --list.")
+NOT_APPLICABLE.pop("C13", None)
